@@ -529,6 +529,15 @@ S["two_initial_events_asc"] = dict(
     until=5, sims=[E("A", init_event=[1, 3], next=[None], emit_default=0), E("B"), T("X")],
     conns=[C("A", "B", "eo", "ti")])
 
+# the async_requests flag declared by a SECOND connect() call, after a time-shifted data connection
+# between the same pair: the agent may read old data, but it must not step at t before A's step t
+# has finished (the async connection has no delay)
+for _sh in (1, 2):
+    S[f"async_after_shift{_sh}"] = dict(
+        until=4, sims=[T("A"), T("M", 1, **{"async": {"1": [("set", "A.e", "mi"), ("gate", 0)]}})],
+        conns=[dict(src="A", dst="M", sattr="po", dattr="mi", shift=_sh, init=True),
+               dict(src="A", dst="M", **{"async": True})])
+
 # an idle event-based simulator in the middle of two async_requests connections: it never steps,
 # so bookkeeping that refers to "its last step" refers to a step that does not exist
 S["async_idle_middle"] = dict(
